@@ -331,10 +331,26 @@ func (m *Muxer) readLoop() {
 				started = v
 			}
 		}
-		// Set read deadline to prevent slowloris-style DoS attacks
-		_ = m.conn.SetReadDeadline(time.Now().Add(segmentReadTimeout))
+		// Wait for the first byte of the next segment without a deadline: an
+		// idle connection is not an attack, and the mini-protocols have their
+		// own per-state timeouts. Once a segment has started, it must complete
+		// within segmentReadTimeout (slowloris protection).
+		_ = m.conn.SetReadDeadline(time.Time{})
+		var headerBuf [8]byte
+		_, err := io.ReadFull(m.conn, headerBuf[:1])
+		if err == nil {
+			_ = m.conn.SetReadDeadline(time.Now().Add(segmentReadTimeout))
+			_, err = io.ReadFull(m.conn, headerBuf[1:])
+		}
 		header := SegmentHeader{}
-		if err := binary.Read(m.conn, binary.BigEndian, &header); err != nil {
+		if err == nil {
+			err = binary.Read(
+				bytes.NewReader(headerBuf[:]),
+				binary.BigEndian,
+				&header,
+			)
+		}
+		if err != nil {
 			if errors.Is(err, io.ErrClosedPipe) {
 				err = io.EOF
 			}
